@@ -2,8 +2,10 @@ package world
 
 import (
 	"fmt"
+	"math/big"
 	"reflect"
 	"sort"
+	"verifsim/spec"
 
 	vmcommon "github.com/ElrondNetwork/elrond-vm-common"
 	"github.com/ElrondNetwork/elrond-vm-common/builtInFunctions"
@@ -110,6 +112,9 @@ type Node struct {
 	Direct map[string]Schedule
 	// scratchCost: the one GasCost object the host reuses for direct announcements and overwrites afterwards
 	scratchCost *vmcommon.GasCost
+	// BuildProblem: what the check made right after building, before any payability handler is
+	// installed, found (reported by the registry check)
+	BuildProblem string
 	// HostRemoved: functions the host took out of the live container through its public API
 	HostRemoved map[string]bool
 	// dnsArg: the very map object that was passed to the factory (the host goes on using it)
@@ -242,6 +247,7 @@ func (nd *Node) build() error {
 	if err != nil {
 		return fmt.Errorf("container: %w", err)
 	}
+	nd.BuildProblem = probeNoHandler(cont, nd.N)
 	// the host first installs a placeholder and then the real handler: the last one installed answers
 	if err = builtInFunctions.SetPayableHandler(cont, allPayable{}); err != nil {
 		return fmt.Errorf("payable handler: %w", err)
@@ -373,4 +379,70 @@ func (nd *Node) HostRemove(name string) {
 	}
 	nd.HostRemoved[name] = true
 	delete(nd.Direct, name)
+}
+
+// probeNoHandler runs, on a scratch store, a plain fungible transfer from a user to a contract in
+// the same shard through a container on which no payability handler has been installed yet. Nothing
+// has said that the contract is payable, so it must not be credited (C09).
+func probeNoHandler(cont vmcommon.BuiltInFunctionContainer, n uint32) string {
+	st := NewStore(0)
+	user := UserAddr(50, 0)
+	contract := ContractAddr(50, 0)
+	tok := []byte("PRB-000000")
+	ua := spec.NewAcct()
+	ua.Storage[spec.TokenKey(tok, 0)] = spec.EncodeToken(&spec.Token{Value: big.NewInt(100)})
+	st.Accts[string(user)] = ua
+	ca := spec.NewAcct()
+	ca.CodeMetadata = []byte{0, 0}
+	st.Accts[string(contract)] = ca
+	bf, err := cont.Get(spec.FnESDTTransfer)
+	if err != nil {
+		return ""
+	}
+	in := &vmcommon.ContractCallInput{
+		VMInput:       vmcommon.VMInput{CallerAddr: user, Arguments: [][]byte{tok, {7}}, CallValue: big.NewInt(0), GasProvided: 1 << 40},
+		RecipientAddr: contract, Function: spec.FnESDTTransfer,
+	}
+	problem := ""
+	func() {
+		defer func() { _ = recover() }()
+		out, err := bf.ProcessBuiltinFunction(st.LoadForPipeline(user), st.LoadForPipeline(contract), in)
+		if err == nil && out != nil && out.ReturnCode == vmcommon.Ok {
+			problem = "before any payability handler was installed, a plain ESDTTransfer from a user credited a contract (nothing said it is payable)"
+		}
+	}()
+	return problem
+}
+
+// HostReplace: the host puts a fresh instance of a function, built by another factory with the same
+// configuration and the schedule in force, under the same name into the live container (public
+// container API). From then on that instance is the function of that name: it is priced by the
+// schedule it was built with until the next accepted change, which must reach it like any other.
+func (nd *Node) HostReplace(name string) error {
+	dns := map[string]struct{}{}
+	for _, d := range nd.Cfg.DNS {
+		dns[d] = struct{}{}
+	}
+	fac, err := builtInFunctions.NewBuiltInFunctionsFactory(builtInFunctions.ArgsCreateBuiltInFunctionContainer{
+		GasMap: nd.Sched.ToMap(), MapDNSAddresses: dns, EnableUserNameChange: nd.Cfg.EnableUserNameChange, Marshalizer: nd.Codec,
+		Accounts: nd.Store, ShardCoordinator: nd.Coord, EpochNotifier: nd.Clock, ESDTNFTImprovementV1ActivationEpoch: nd.Cfg.ActivationEpoch})
+	if err != nil {
+		return err
+	}
+	other, err := fac.CreateBuiltInFunctionContainer()
+	if err != nil {
+		return err
+	}
+	if err = builtInFunctions.SetPayableHandler(other, nd.Pay); err != nil {
+		return err
+	}
+	obj, err := other.Get(name)
+	if err != nil {
+		return err
+	}
+	if err = nd.Container.Replace(name, obj); err != nil {
+		return err
+	}
+	delete(nd.Direct, name)
+	return nil
 }
